@@ -29,6 +29,7 @@
 # POSSIBILITY OF SUCH DAMAGE.
 
 
+import itertools
 import json
 import logging
 import socket
@@ -543,6 +544,8 @@ class Messaging(object):
         self.size_ext_msg = defaultdict(lambda: 0)  # type: Dict[str, int]
         self.last_msg_time = 0
         self.msg_queue_count = 0
+        # post_msg is called from several threads: the counter must be atomic.
+        self._msg_counter = itertools.count(1)
 
         self._shutdown = False
 
@@ -665,8 +668,9 @@ class Messaging(object):
             # that the #  tuple will always be orderable. The time is
             # useful to measure the delay between reception and handling
             # of a message.
-            self.msg_queue_count += 1
-            self._queue.put((msg_type, self.msg_queue_count, now, full_msg))
+            count = next(self._msg_counter)
+            self.msg_queue_count = count
+            self._queue.put((msg_type, count, now, full_msg))
         else:
             if self.logger.isEnabledFor(logging.DEBUG):
                 self.logger.debug(
